@@ -34,7 +34,12 @@ static long outs[MAXT][MAXOPS]; static int nout[MAXT];
 static volatile long dtsum, dtcalls, oncecnt, serials, finished;
 static pthread_attr_t attrs[MAXT];
 
-static void dtor(void *v){ __sync_fetch_and_add(&dtsum, (long)v); __sync_fetch_and_add(&dtcalls, 1); }
+/* a destructor is ordinary code: it takes a lock that other ending threads want too and gives the processor away while
+   holding it (so a thread may be suspended inside its destructor and continue elsewhere) */
+static pthread_mutex_t DM = PTHREAD_MUTEX_INITIALIZER;
+static void dtor(void *v){
+  if ((long)v & 1){ sched_yield(); __sync_fetch_and_add(&dtsum, (long)v); __sync_fetch_and_add(&dtcalls, 1); return; }
+  pthread_mutex_lock(&DM); dtsum += (long)v; sched_yield(); dtcalls += 1; pthread_mutex_unlock(&DM); }
 static void once_fn(void){ __sync_fetch_and_add(&oncecnt, 1); }
 static __attribute__((noinline)) void nested_exit(long v, int depth){
   volatile char pad[48]; pad[0] = (char)depth;
